@@ -69,12 +69,18 @@ def element_case(draw):
         if mode == 0:
             # a single parameter off its default: factors that are 1 at the defaults become visible one at a time
             params[k] = i["v"]
+        elif mode == 1:
+            # corners of the limit box: exponents at exactly 1 (or small), the others at the default or decades away
+            if i["lo"] >= 0 and i["hi"] <= 1.0:
+                params[k] = draw(st.sampled_from([1.0, 1.0, 0.05, 0.5]))
+            else:
+                params[k] = min(max(i["v"] * draw(st.sampled_from([1.0, 1e-3, 1e3, 1e-6, 1e6])), i["lo"]), i["hi"])
         else:
             params[k] = draw(G.value_strategy(i, wide=(mode >= 8)))
     if mode == 0:
         k = draw(st.sampled_from(sorted(info)))
         params[k] = draw(G.value_strategy(info[k], wide=False))
-    return {"sym": sym, "params": params, "f": draw(_freqs(8))}
+    return {"sym": sym, "params": params, "f": draw(_freqs(6)) + [1e9, 1e-6]}
 
 
 @st.composite
@@ -395,7 +401,7 @@ def body_limit(ctx, case):
 
 def parts(ctx):
     return [
-        Part("elements", body_element, strategy=element_case(), n={"quick": 1600, "thorough": 60000}, budget_s={"quick": 90, "thorough": 1500}, case_timeout_s=30),
+        Part("elements", body_element, strategy=element_case(), n={"quick": 4800, "thorough": 90000}, budget_s={"quick": 90, "thorough": 1500}, case_timeout_s=30),
         Part("circuits", body_circuit, strategy=circuit_case(), n={"quick": 240, "thorough": 8000}, budget_s={"quick": 90, "thorough": 1500}, case_timeout_s=20),
         Part("tlm-configs", body_tlm_enum, items=tlm_enum, exhaustive=True, budget_s={"quick": 90, "thorough": 900}, case_timeout_s=20),
         Part("tlm-random", body_tlm, strategy=tlm_case(), n={"quick": 160, "thorough": 6000}, budget_s={"quick": 90, "thorough": 900}, case_timeout_s=20),
